@@ -790,6 +790,53 @@ std::vector<H3Index> Gen::cellSet(int maxCells, std::string &tag) {
         tag = "globe-res" + std::to_string(gres) + "-minus-" + std::to_string(gaps) + "-gaps ";
         return cells;
     }
+    if (r.chance(0.06)) {
+        // archipelago: many small components (single cells, 1-disks, rings with a one-cell hole), more outer
+        // loops than any small fixed-size scratch array would hold
+        int n = (int)r.range(4, maxCells >= 2000 ? 120 : 48);
+        std::set<H3Index> acc;
+        H3Index anchor = r.chance(0.3) ? nearPentagon(res, 2) : randCell(res);
+        std::vector<H3Index> field = refDisk(anchor, std::min(30, 4 + (int)sqrt((double)n) * 3));
+        for (int i = 0; i < n; i++) {
+            H3Index c = field[r.below(field.size())];
+            int shape = (int)r.below(3);
+            if (shape == 0) {
+                acc.insert(c);
+            } else {
+                for (auto x : refDisk(c, 1))
+                    if (shape == 1 || x != c) acc.insert(x);
+            }
+        }
+        cells.assign(acc.begin(), acc.end());
+        if (r.chance(0.7)) r.shuffle(cells);
+        tag = "archipelago-" + std::to_string(n) + " ";
+        return cells;
+    }
+    if (r.chance(0.04)) {
+        // a line of cells (grid path) and a closed chain of lines: long outlines with few cells
+        H3Index a = r.chance(0.3) ? nearPentagon(res, 4) : randCell(res);
+        std::set<H3Index> acc;
+        int legs = (int)r.range(1, 4);
+        H3Index cur = a;
+        for (int l = 0; l < legs; l++) {
+            H3Index b = cur;
+            int steps = (int)r.range(2, std::min(40, std::max(3, maxCells / 8)));
+            for (int i = 0; i < steps; i++) b = neighborOf(b);
+            int64_t sz = 0;
+            if (REF.gridPathCellsSize(cur, b, &sz) == E_SUCCESS && sz > 0 && sz < 4000) {
+                std::vector<H3Index> path((size_t)sz, 0);
+                if (REF.gridPathCells(cur, b, path.data()) == E_SUCCESS)
+                    for (auto x : path)
+                        if (x) acc.insert(x);
+            }
+            cur = b;
+        }
+        acc.insert(a);
+        cells.assign(acc.begin(), acc.end());
+        if (r.chance(0.7)) r.shuffle(cells);
+        tag = "path-" + std::to_string(legs) + "-legs ";
+        return cells;
+    }
     int comps = 1;
     double u = r.unit();
     if (u > 0.6) comps = 2;
